@@ -45,6 +45,7 @@ From Coq Require Import PrimFloat.
 From Coq Require Import ZArith List Bool Reals Lra Permutation Sorted.
 From BZ Require Import Base.Ops Gen.Point Gen.BBox Gen.Line Gen.Quad Gen.Cubic Hand.Bounds Hand.CurveCurve Proofs.C02 Proofs.C06 Proofs.C06sym.
 Import ListNotations.
+From BZ Require Gen.PathOps Proofs.Bridge5.
 From BZ Require Proofs.Transfer4.
 From BZ Require Gen.Sample Gen.CurveCurve Proofs.Bridge4.
 Open Scope R_scope.
@@ -229,6 +230,18 @@ Proof. exact @Transfer4.gen_cc_t_CQ_outcomes. Qed.
 Theorem C06_gen_cc_t_CC_outcomes :
   forall (K : Type) (key2 : R -> K) (keq : K -> K -> bool) (fuel : nat) (a b : seg4 R) (lo hi lo' hi' : R), (lo < hi)%R -> (lo' < hi')%R -> Transfer4.value_or_fuel (CurveCurve.Cubic__curve_curve_intersections_t_Cubic ROps key2 keq fuel {| CurveCurve.rg_seg := a; CurveCurve.rg_lo := lo; CurveCurve.rg_hi := hi |} {| CurveCurve.rg_seg := b; CurveCurve.rg_lo := lo'; CurveCurve.rg_hi := hi' |}).
 Proof. exact @Transfer4.gen_cc_t_CC_outcomes. Qed.
+Theorem C06_getSelfIntersections_gen :
+  forall (T : Type) (O : Ops T) (K : Type) (key2 : T -> K) (keq : K -> K -> bool) (fuel : nat) (d : segment T) (segs : list (segment T)), Bridge4.result_of (PathOps.Path_getSelfIntersections O key2 keq fuel segs) = bind (self_intersections O key2 (Bridge4.flip keq) fuel segs) (fun l : list sx => Ok (map (Bridge5.resolve d segs) l)).
+Proof. exact @Bridge5.getSelfIntersections_gen. Qed.
+Theorem C06_getSelfIntersections_gen_sym :
+  forall (T : Type) (O : Ops T) (K : Type) (key2 : T -> K) (keq : K -> K -> bool) (fuel : nat) (d : segment T) (segs : list (segment T)), (forall x y : K, keq x y = keq y x) -> Bridge4.result_of (PathOps.Path_getSelfIntersections O key2 keq fuel segs) = bind (self_intersections O key2 keq fuel segs) (fun l : list sx => Ok (map (Bridge5.resolve d segs) l)).
+Proof. exact @Bridge5.getSelfIntersections_gen_sym. Qed.
+Theorem C06_self_intersections_indices :
+  forall (T : Type) (O : Ops T) (K : Type) (key2 : T -> K) (keq : K -> K -> bool) (fuel : nat) (segs : list (segment T)) (l : list sx), self_intersections O key2 (Bridge4.flip keq) fuel segs = Ok l -> Forall (fun x : nat * nat * (T * pt T * T) => (fst (fst x) < length segs)%nat /\ (snd (fst x) < length segs)%nat) l.
+Proof. exact @Bridge5.self_intersections_indices. Qed.
+Theorem C06_getSelfIntersections_gen_float :
+  forall (fuel : nat) (d : segment float) (segs : list (segment float)), Bridge4.result_of (PathOps.Path_getSelfIntersections FOps key2F keyF_eqb fuel segs) = bind (self_intersections FOps key2F keyF_eqb fuel segs) (fun l : list sx => Ok (map (Bridge5.resolve d segs) l)).
+Proof. exact @Bridge5.getSelfIntersections_gen_float. Qed.
 
 Print Assumptions C06_range_invariant.
 Print Assumptions C06_repr_whole.
@@ -290,3 +303,7 @@ Print Assumptions C06_gen_cc_t_QQ_outcomes.
 Print Assumptions C06_gen_cc_t_QC_outcomes.
 Print Assumptions C06_gen_cc_t_CQ_outcomes.
 Print Assumptions C06_gen_cc_t_CC_outcomes.
+Print Assumptions C06_getSelfIntersections_gen.
+Print Assumptions C06_getSelfIntersections_gen_sym.
+Print Assumptions C06_self_intersections_indices.
+Print Assumptions C06_getSelfIntersections_gen_float.
